@@ -92,6 +92,43 @@ func checkSpec(d D, spec string, text string, what string) string {
 	return ""
 }
 
+// checkAccepted judges what a State that refused one whole Write call has
+// accepted from the others: if those bytes, without surrounding blanks, are a
+// well-formed finite numeral, they must be the reference rendering, a prefix
+// of it (the rest was refused), or at least denote the same value with the
+// same sign as the reference rendering does. Anything else means the peer was
+// handed a numeral of another value.
+func checkAccepted(d D, spec string, got string) string {
+	n := NumOf(d)
+	f, verb, ok := parseSpec(spec)
+	if !ok || n.Class != ref.Finite {
+		return ""
+	}
+	var want string
+	switch {
+	case verb == 'v' && f == (ref.Flags{}):
+		want = ref.Shortest(n)
+	case isFloatVerb(verb):
+		want = ref.FormatNum(n, f, verb)
+	default:
+		return ""
+	}
+	g, w := strings.Trim(got, " "), strings.Trim(want, " ")
+	if g == "" || strings.HasPrefix(w, g) {
+		return ""
+	}
+	gl := ref.ParseLiteral(g, ref.LitOpts{NoUnderscore: true, NoSpecial: true})
+	wl := ref.ParseLiteral(w, ref.LitOpts{NoUnderscore: true, NoSpecial: true})
+	if gl.Status == ref.LitInvalid || wl.Status == ref.LitInvalid {
+		return ""
+	}
+	gv, wv := gl.Value(0), wl.Value(0)
+	if gv.Overflow || wv.Overflow || ref.SameValue(gv.N, wv.N) {
+		return ""
+	}
+	return fmt.Sprintf("Format with %%%s of %s into a State that refused one Write call and accepted the others left %q on the stream, a numeral of another value (complete rendering %q)", spec, n, got, want)
+}
+
 // simState is a simulator-owned fmt.State: it answers Flag/Width/Precision
 // exactly as planned (any combination, also those a particular fmt release
 // would never produce) and collects what is written.
@@ -107,6 +144,9 @@ type simState struct {
 	// reports short counts with a nil error as well; 3: it panics instead
 	// (package fmt recovers panics of a Formatter, so a failing sink may well
 	// panic and the process carries on)
+	// 4: exactly the wafter-th Write call is refused as a whole (0 bytes, an
+	// error) and every other call is accepted: a sink that is full once and
+	// drained afterwards
 	wmode, wafter int
 	refused       bool
 }
@@ -116,6 +156,13 @@ type peerPanic struct{}
 
 func (s *simState) Write(b []byte) (int, error) {
 	s.writes++
+	if s.wmode == 4 {
+		if s.writes == s.wafter {
+			s.refused = true
+			return 0, ErrInjected
+		}
+		return s.out.Write(b)
+	}
 	if s.wmode != 0 {
 		if len(b) > s.wafter {
 			n := s.wafter
@@ -303,7 +350,14 @@ func init() {
 			return ""
 		}
 		if len(r.I) >= 2 && r.I[1] == 1 {
-			return "" // the State refused bytes: only termination without a panic is required
+			// the State refused bytes: termination without a panic is
+			// required, and what the State did accept must not be a
+			// well-formed numeral of another value (a formatter that goes on
+			// writing after a refused Write can drop the sign or leading digits)
+			if len(op.I) >= 4 && op.int(2) == 4 {
+				return checkAccepted(op.dec(0), op.str(0), r.S[0])
+			}
+			return ""
 		}
 		what := "Format(State)"
 		if len(op.I) >= 4 {
